@@ -29,12 +29,13 @@ type Case struct {
 	Sc       sims.Scenario
 	Cancel   string // "" | before | at | after-first-delivery
 	CancelAt int
+	Again    int // extra calls on the same validator, fetcher and cache before the judged one
 	Group    int // independence group id (0 = none)
 	Focus    int // position whose assignment is held fixed within the group
 }
 
 func (c Case) desc() string {
-	return fmt.Sprintf("cancel=%s@%d | %s", c.Cancel, c.CancelAt, c.Sc.Desc())
+	return fmt.Sprintf("cancel=%s@%d again=%d | %s", c.Cancel, c.CancelAt, c.Again, c.Sc.Desc())
 }
 
 func execute(c *Case) *sims.Outcome {
@@ -57,7 +58,13 @@ func execute(c *Case) *sims.Outcome {
 			}
 		}
 	}
-	return env.Run(ctx)
+	out := env.Run(ctx)
+	for i := 0; i < c.Again && c.Cancel == ""; i++ {
+		// the log is cumulative: evidence delivered to an earlier call and kept in
+		// the cache still counts for a later one
+		out = env.Run(ctx)
+	}
+	return out
 }
 
 // evidence summarises, for one certificate, what the doubles say they
@@ -247,7 +254,7 @@ func randPlan(rng *rand.Rand, oS, cS []slot, max int) sims.CertPlan {
 func run(r *core.Run) int {
 	r.Rule = "per URL one of {genuine good, genuine revoked, unknown-status, transport error, timeout, 204/301/403/404/500/503, empty, truncated, oversized, garbage, five OCSP error statuses, body read error, unsupported schemes, relative/empty/unparsable/control-character URL}; " +
 		"single-certificate assignments with up to 2 responders and 2 points enumerated, 3+3 sampled; across certificates sampled, each sampled chain run twice more with the OTHER certificates' assignments re-drawn (independence); " +
-		"cache {none, healthy, Get fault, Set fault} x DiscardCacheError; cancellation {never, before, on arrival of request k, after the first delivery}; ValidateContext, Validate, ocsp.CheckStatus. " +
+		"cache {none, healthy, Get fault, Set fault} x DiscardCacheError; cancellation {never, before, on arrival of request k, after the first delivery}; ValidateContext, Validate, ocsp.CheckStatus; every cached configuration also with the call repeated once or twice on the same validator, fetcher and cache (the last call judged, evidence cumulative). " +
 		"non-trivial = the assignment holds at least one fault and at least one source; distinct by descriptor"
 	r.Assume("evidence of good standing / revocation is what the doubles say they delivered; cancellation is decided by request index, never by the clock")
 	oS, cS := ocspSlots(), crlSlots()
@@ -373,6 +380,14 @@ func run(r *core.Run) int {
 			cases = append(cases, c)
 		}
 	}
+	// (4) the same call once or twice more on the same validator, fetcher and cache
+	for _, c := range append([]*Case{}, cases...) {
+		if c.Cancel == "" && c.Group == 0 && c.Sc.Entry == "validate" && (c.Sc.Cache != "" || rng.IntN(8) == 0) {
+			d := *c
+			d.Again = 1 + rng.IntN(2)
+			cases = append(cases, &d)
+		}
+	}
 	results := make([][]sims.CanonCert, len(cases))
 	r.Parallel(len(cases), func(i int) {
 		c := cases[i]
@@ -392,6 +407,9 @@ func run(r *core.Run) int {
 		}
 		if c.Sc.Cache != "" {
 			r.Count("cache-"+c.Sc.Cache, 1)
+		}
+		if c.Again > 0 {
+			r.Count("repeated-calls", 1)
 		}
 		if results[i] != nil {
 			r.Sample("entry-"+c.Sc.Entry+"-cancel-"+c.Cancel, map[string]any{"case": c.desc(), "result": sims.CanonString(results[i])})
@@ -422,7 +440,8 @@ func run(r *core.Run) int {
 		core.Require{Counter: "verdict-Revoked", Why: "no certificate ended Revoked"},
 		core.Require{Counter: "independence-comparisons", Why: "no independence comparison"},
 		core.Require{Counter: "cancelled-at", Why: "no cancellation during the call"},
-		core.Require{Counter: "cache-get-fault", Why: "no cache Get fault"})
+		core.Require{Counter: "cache-get-fault", Why: "no cache Get fault"},
+		core.Require{Counter: "repeated-calls", Why: "no call repeated on the same validator and cache"})
 }
 
 func hasFault(p sims.CertPlan) bool {
